@@ -40,16 +40,28 @@ ReturnedValues(o) == [ n \in { o.values[i].n : i \in DOMAIN o.values } |->
                          LET v == o.values[CHOOSE i \in DOMAIN o.values : o.values[i].n = n]
                          IN IF v.kind = "ok" THEN SaRange(v.vals) ELSE {} ]
 
+(* The Prometheus HTTP API refuses selector sets that match the empty label set (StoreAPIs,     *)
+(* PromRefuses): the sidecar then answers the label call with InvalidArgument.  A refused call   *)
+(* gave no answer and is not judged.  The class is decided from the case input alone.            *)
+Refused(e, kind, call) ==
+    kind = "prom" /\ call.kind = "error" /\ call.code = "InvalidArgument" /\ PromRefuses(ReqOf(e).ms, HeadOf(e).ext)
+JudgedValues(e, kind) ==
+    LET o == e[kind]
+        idx == { i \in DOMAIN o.values : ~Refused(e, kind, o.values[i]) }
+    IN [ n \in { o.values[i].n : i \in idx } |->
+           LET v == o.values[CHOOSE i \in idx : o.values[i].n = n]
+           IN IF v.kind = "ok" THEN SaRange(v.vals) ELSE {} ]
+
 JudgeStore(e, kind) ==
     LET o == e[kind] IN
     Tag(kind,
         (* "every label name ... that appears on a series returned by a store's Series call is also
            returned by that store's label-names ... call" *)
-        (IF C07NamesMissing(ReturnedSeries(o), ReturnedNames(o)) # {}
+        (IF ~Refused(e, kind, o.names) /\ C07NamesMissing(ReturnedSeries(o), ReturnedNames(o)) # {}
            THEN {"label-name-on-series-missing-from-LabelNames"} ELSE {})
         \cup
         (* "... every value of a label ... is also returned by that store's ... label-values call" *)
-        (IF C07ValuesMissing(ReturnedSeries(o), ReturnedValues(o)) # {}
+        (IF C07ValuesMissing(ReturnedSeries(o), JudgedValues(e, kind)) # {}
            THEN {"label-value-on-series-missing-from-LabelValues"} ELSE {})
         \cup
         (IF o.series.kind = "panic" \/ o.names.kind = "panic" \/ \E i \in DOMAIN o.values : o.values[i].kind = "panic"
